@@ -158,9 +158,21 @@ func Resolve(p *load.Program) *Roles {
 	if r.SignCore != nil {
 		mod, _, _ := ssau.Reachable(r.SignCore)
 		r.WriteDom2 = uniq("writeDom2", filter(mod, func(f *ssa.Function) bool {
+			hasW := false
 			for i := 0; i < f.Signature.Params().Len(); i++ {
 				if f.Signature.Params().At(i).Type().String() == "io.Writer" {
-					return true
+					hasW = true
+				}
+			}
+			if !hasW {
+				return false
+			}
+			// the function that itself writes (a guard wrapper around it only delegates)
+			for _, b := range f.Blocks {
+				for _, in := range b.Instrs {
+					if c, ok := in.(ssa.CallInstruction); ok && c.Common().IsInvoke() && c.Common().Method.Name() == "Write" {
+						return true
+					}
 				}
 			}
 			return false
@@ -175,6 +187,32 @@ func Resolve(p *load.Program) *Roles {
 			}
 			if a.Signature.Params().Len() == 1 && a.Signature.Results().Len() == 1 && a.Signature.Params().At(0).Type().String() == "bool" && a.Signature.Results().At(0).Type().String() == "int" && len(a.FreeVars) == 0 {
 				b2r = append(b2r, a)
+			}
+		}
+		// the bool -> summary-bit helper may also be a package-level function called directly by VerifyBatch
+		if len(b2r) == 0 {
+			for _, blk := range r.VerifyBatch.Blocks {
+				for _, in := range blk.Instrs {
+					c, ok := in.(*ssa.Call)
+					if !ok {
+						continue
+					}
+					a := c.Common().StaticCallee()
+					if a == nil || a.Pkg != r.VerifyBatch.Pkg || a.Parent() != nil {
+						continue
+					}
+					if a.Signature.Params().Len() == 1 && a.Signature.Results().Len() == 1 && a.Signature.Params().At(0).Type().String() == "bool" && a.Signature.Results().At(0).Type().String() == "int" {
+						dup := false
+						for _, x := range b2r {
+							if x == a {
+								dup = true
+							}
+						}
+						if !dup {
+							b2r = append(b2r, a)
+						}
+					}
+				}
 			}
 		}
 		r.FailBatch = uniq("failBatch", fb, r.Errs)
